@@ -6,7 +6,8 @@
 EXTENDS Writers, Json
 CONSTANTS MaxWriters, MaxSteps, Precisions, Paths,
           DEV_GlobalPrecision,      \* float_to_str reads the precision of the writer constructed LAST
-          DEV_AccumulatingRoot      \* XMLFileWriter appends to one element tree across writes
+          DEV_AccumulatingRoot,     \* XMLFileWriter appends to one element tree across writes
+          DEV_NoTruncate            \* the file is opened without truncation: a longer old file keeps its tail
 
 VARIABLES writers, files, gprec, tree, steps, act
 vars == <<writers, files, gprec, tree, steps, act>>
@@ -16,6 +17,10 @@ W == 1..MaxWriters
 A(op, w, path, mode, kind, fmt, d) == [op |-> op, w |-> w, path |-> path, mode |-> mode, kind |-> kind, fmt |-> fmt, d |-> d]
 Init == /\ writers = <<>> /\ files = [p \in {} |-> NoFile] /\ gprec = 4 /\ tree = <<>> /\ steps = 0
         /\ act = A("init", 0, "", "", "", "", 0)
+
+(* abstract length of a file: more decimals, planning problems and copies make it longer *)
+Size(c) == (IF c.fmt = "xml" THEN 20 + c.digits ELSE IF c.fmt = "pb" THEN 10 ELSE 1000) + 5 * c.pp + 40 * c.copies
+Garbled == [fmt |-> "garbled", digits |-> 0, copies |-> 0, pp |-> 0]
 
 New(fmt, d) ==
     /\ Len(writers) < MaxWriters
@@ -31,9 +36,11 @@ Write(w, path, mode, kind) ==
         content == [fmt |-> wr.fmt,
                     digits |-> IF wr.fmt = "xml" THEN (IF DEV_GlobalPrecision THEN gprec ELSE wr.d) ELSE 0,
                     copies |-> t1.n, pp |-> t1.pp]
+        onDisk == IF DEV_NoTruncate /\ path \in DOMAIN files /\ Size(files[path]) > Size(content)
+                  THEN Garbled ELSE content          \* new bytes followed by the old file's tail
     IN /\ w \in 1..Len(writers)
        /\ IF Skipped(files, path, mode) THEN UNCHANGED <<files, tree>>
-          ELSE /\ files' = [p \in DOMAIN files \cup {path} |-> IF p = path THEN content ELSE files[p]]
+          ELSE /\ files' = [p \in DOMAIN files \cup {path} |-> IF p = path THEN onDisk ELSE files[p]]
                /\ tree' = [tree EXCEPT ![w] = t1]
        /\ UNCHANGED <<writers, gprec>>
        /\ act' = A("write", w, path, mode, kind, wr.fmt, wr.d)
@@ -47,7 +54,7 @@ Spec == Init /\ [][Next]_vars
 PropOwnInputs == [][act'.op = "write" =>
                       IF Skipped(files, act'.path, act'.mode) THEN files' = files
                       ELSE files'[act'.path] = F(writers[act'.w], act'.kind)]_vars
-InvFiles == \A p \in DOMAIN files : files[p].copies = 1
+InvFiles == \A p \in DOMAIN files : files[p].copies = 1 /\ files[p].fmt \in Formats
 
 StKey == [writers |-> writers, files |-> files, gprec |-> gprec, tree |-> tree, steps |-> steps]
 Emit == PrintT(<<"EDGE", ToJson([from |-> StKey, act |-> act', to |-> StKey'])>>)
